@@ -15,6 +15,13 @@ CHECKS = {
         "Sequences of <= 3 statements (not 40), nesting <= 3, 8 globals; sub-expressions with side effects only at statement level so no evaluation order is assumed.",
         "§4 C01",
     ),
+    "C02": (
+        "progmc c02",
+        "bounded-exhaustive enumeration of (type, placement, write kind, value shape) cases compiled and executed by the real CLI against a value-semantics model, with guard values on both sides of every written place",
+        "For each of 129 types (13 scalars; byte-array structs of every size 1..64; 18 mixed-alignment structs incl. size < stride, SSE/INTEGER mixes and i128; 7 enums incl. custom discriminants and struct payloads; 7 optionals; 6 error unions; 8 arrays incl. nested and arrays of sum types; 5 structs of sum types) x 3 placements (local between guard locals, field between guard fields of a wrapper struct, middle element of a [3]T) x up to 9 write kinds (plain store, copy then overwrite the source, store through ^mut, return by value, pass+return by value between guard arguments, partial mutation of a copy, anonymous->named struct with reordered fields, element-type array cast, default value) x every top-level shape of the written value (each variant, some/nil, ok/each error): every leaf of the guards, the written place, its neighbours and every copy is printed and compared with plain value semantics (quick: byte structs use 4 of the kinds; thorough: all).",
+        "Only leaf values are observed (padding is not a live value); stack adjacency of locals is whatever the code generator chooses, adjacency is forced by the field and element placements; globals are immutable in Capy and are not a write target.",
+        "§4 C02",
+    ),
     "C22": (
         "capy-verif lex-mc",
         "bounded-exhaustive input enumeration against invariants (every string <= k over token-class alphabets, every <= 3-word sequence) on the real lexer",
